@@ -12,6 +12,7 @@ import sys
 import tempfile
 
 sys.path.insert(0, os.path.dirname(os.path.dirname(os.path.abspath(__file__))))
+from fractions import Fraction  # noqa: E402
 import numpy as np  # noqa: E402
 
 from checks.common import Check, explore, scenario, sopht_modules  # noqa: E402
@@ -214,7 +215,16 @@ def rejection(ctx, dim, grid, n_markers):
                     close = S.And(close, S.sabs(S.lift(registered_vals[name][i]) - b) <= S.lift(1e-8) + S.lift(1e-5) * S.sabs(b))
             if returned:
                 ctx.claim("returns_only_if_all_keys_present", all_present)
-                ctx.claim("returns_only_if_parameters_match", close)
+                # counterexamples that survive floating point: exactly one stored parameter clearly off, the others exact
+                robust = []
+                for off, margin in (("grid_size", 1), ("dx", Fraction(1, 10)), ("origin", Fraction(1, 10))):
+                    parts = []
+                    for name in ("origin", "dx", "grid_size"):
+                        for i in range(dim):
+                            b, r0 = stored[name][i], S.lift(registered_vals[name][i])
+                            parts.append(S.sabs(b - r0) >= margin if (name == off and i == 0) else S._cmp("eq", b, r0))
+                    robust.append(S.And(*parts))
+                ctx.claim("returns_only_if_parameters_match", close, robust=robust)
             else:
                 ctx.claim("raises_only_if_something_mismatches", S.Not(S.And(all_present, close)))
             return returned
